@@ -9,7 +9,7 @@ from fractions import Fraction as F
 from harness import tlc, tracecheck
 from harness import gen_explainer as G
 from harness.proxies import TapeMismatch
-from harness.fieldp import Unrepresentable
+from harness.fieldp import Unrepresentable, NonFinite
 
 # clause prefix -> property (DESIGN.md Appendix A)
 CLAUSE_PROPERTY = [
@@ -38,6 +38,7 @@ def run_scenarios(scenarios, construct_errors=None):
     traces, kept = [], []
     not_observed = [0]
     run_scenarios.not_observed = not_observed
+    run_scenarios.non_finite = []
     for sc in scenarios:
         try:
             tr, extra = G.run_scenario(sc)
@@ -47,6 +48,9 @@ def run_scenarios(scenarios, construct_errors=None):
             continue
         except G.NotObservable:
             not_observed[0] += 1
+            continue
+        except NonFinite as e:
+            run_scenarios.non_finite.append((sc, str(e)))
             continue
         except Unrepresentable:
             continue        # a logged number has a denominator divisible by P: the scenario is skipped, never failed
@@ -66,6 +70,13 @@ def validate(ctx, scenarios, wanted, label, workers=8, construct_violation=False
                               "constructor raised for scenario [%s]: %s" % (sc.key(), msg), {"scenario": sc.to_json()})
         else:
             ctx.skip("scenarios whose explainer could not be constructed (judged by C15)", len(cerr))
+    for sc, msg in run_scenarios.non_finite:
+        # exact inputs (Fractions) and yet the explainer's state or a value it handed to a callback is NaN / infinite
+        if ctx.pid in ("C01", "C02", "C03", "C16", "C17"):
+            ctx.violation("trace.state.non_finite", _config_key(sc), "scenario [%s]: the explainer produced the non-finite "
+                          "value %s from exact inputs" % (sc.key(), msg), {"scenario": sc.to_json()})
+        else:
+            ctx.skip("scenarios with non-finite explainer state (judged by C01-C03, C17)")
     if run_scenarios.not_observed[0]:
         ctx.skip("scenarios whose abstract state could not be projected (anchored attributes missing)", run_scenarios.not_observed[0])
     if not traces:
